@@ -157,6 +157,15 @@ Definition analyze_dinstr_src (di : dinstr) (pc : pcontext) : option op_analysis
           oa_ip := ip_of_src (di_ip di) pc;
           oa_regs := instr_regs (di_ops di) |}.
 
+(* ------------------------------------------------------------ MINIDUMP_MEMORY_INFO records -> regions, with the compiled permission masks *)
+(* protection = MemoryProtection::from_bits_truncate(raw.protection); is_X = protection.intersects(mask) *)
+Definition prot_src (mask p : Z) : bool := negb (Z.land (Z.land p G_PROT_KNOWN) mask =? 0).
+Definition region_of_info_src (base size prot : Z) : region :=
+  {| rg_range := mk_range base size; rg_r := prot_src G_PROT_R_MASK prot; rg_w := prot_src G_PROT_W_MASK prot;
+     rg_x := prot_src G_PROT_X_MASK prot |}.
+Definition regions_of_info_src (l : list (Z * Z * Z)) : list region :=
+  map (fun e => let '(a, b, p) := e in region_of_info_src a b p) l.
+
 (* ------------------------------------------------------------ from the raw records *)
 (* CrashReason::from_exception as far as the compiled GPF patterns and MemoryOperation::from_crash_reason look *)
 Definition greason_of (c : gcpu) (o : gosx) (code flags nparams info0 : Z) : greason :=
